@@ -66,29 +66,20 @@ fn tileset_v(t: &TilesetM) -> V {
 
 /// effective tilesets: later chunk with the same id replaces the earlier one
 fn effective_tilesets(sp: &Sprite) -> Vec<&TilesetM> {
-    let mut out: Vec<&TilesetM> = Vec::new();
+    // a later chunk with the same id replaces the earlier one
+    let mut by_id: std::collections::BTreeMap<u32, &TilesetM> = Default::default();
     for t in &sp.tilesets {
-        if let Some(pos) = out.iter().position(|x| x.id == t.id) {
-            out[pos] = t;
-        } else {
-            out.push(t);
-        }
+        by_id.insert(t.id, t);
     }
-    out.sort_by_key(|t| t.id);
-    out
+    by_id.into_values().collect()
 }
 
 fn effective_ext(sp: &Sprite) -> Vec<&ExtFileM> {
-    let mut out: Vec<&ExtFileM> = Vec::new();
+    let mut by_id: std::collections::BTreeMap<u32, &ExtFileM> = Default::default();
     for t in &sp.ext_files {
-        if let Some(pos) = out.iter().position(|x| x.id == t.id) {
-            out[pos] = t;
-        } else {
-            out.push(t);
-        }
+        by_id.insert(t.id, t);
     }
-    out.sort_by_key(|t| t.id);
-    out
+    by_id.into_values().collect()
 }
 
 pub fn structure(sp: &Sprite, opts: &ObsOpts) -> V {
@@ -166,11 +157,12 @@ pub fn structure(sp: &Sprite, opts: &ObsOpts) -> V {
         let files = effective_ext(sp);
         items.push(("ext_files", V::L(files.iter().map(|f| m(vec![("key", n(f.id)), ("id_name", V::S(format!("{}\u{0}{}", f.id, f.name)))])).collect())));
         let probes = id_probe_ids(opts);
+        let by_id: std::collections::HashMap<u32, &ExtFileM> = files.iter().map(|f| (f.id, *f)).collect();
         items.push((
             "ext_by_id",
             V::L(probes
                 .iter()
-                .filter_map(|id| files.iter().find(|f| f.id == *id).map(|f| m(vec![("probe", n(*id)), ("routes_agree", b(true)), ("id", n(f.id)), ("name", s(&f.name))])))
+                .filter_map(|id| by_id.get(id).map(|f| m(vec![("probe", n(*id)), ("routes_agree", b(true)), ("id", n(f.id)), ("name", s(&f.name))])))
                 .collect()),
         ));
     }
@@ -180,7 +172,8 @@ pub fn structure(sp: &Sprite, opts: &ObsOpts) -> V {
         items.push(("tilesets_is_empty", b(ts.is_empty())));
         items.push(("tilesets", V::L(ts.iter().map(|t| tileset_v(t)).collect())));
         let probes = id_probe_ids(opts);
-        items.push(("tilesets_get", V::L(probes.iter().filter(|id| ts.iter().any(|t| t.id == **id)).map(|id| V::L(vec![n(*id), n(*id)])).collect())));
+        let known: std::collections::HashSet<u32> = ts.iter().map(|t| t.id).collect();
+        items.push(("tilesets_get", V::L(probes.iter().filter(|id| known.contains(*id)).map(|id| V::L(vec![n(*id), n(*id)])).collect())));
     }
     items.push(("sprite_ud", ud_v(sp.sprite_ud.as_ref())));
     m(items)
